@@ -2,6 +2,7 @@ package cmd
 
 import (
 	"fmt"
+	"sort"
 
 	"github.com/knadh/koanf/providers/structs"
 	"github.com/knadh/koanf/v2"
@@ -17,7 +18,15 @@ func updatePackageInfoFromArgs(packageInfo *packaging.PackageInfo, configArgs ma
 		log.Panic().Msgf("error loading package info: %v", err)
 	}
 
-	for key, value := range configArgs {
+	// apply the overrides in a fixed order so that the outcome does not depend on map iteration order
+	keys := make([]string, 0, len(configArgs))
+	for key := range configArgs {
+		keys = append(keys, key)
+	}
+	sort.Strings(keys)
+
+	for _, key := range keys {
+		value := configArgs[key]
 		if k.Exists(key) {
 			log.Info().Msgf("Overriding config key %s with value %s", key, value)
 			k.Set(key, value)
